@@ -259,6 +259,7 @@ class C12(Prop):
         except Exception as e:
             raise Decline("raised:" + innermost_funsor_frame(e))
         evaluate_against_oracle(node, r, stt, "gaussian", nreal=3)
+        self.integer_typed_point(case, r, stt)
         stt.count("completed")
         gs = [n for n in walk(node) if n[0] == "gauss"]
         depth = sum(1 for n in walk(node) if n[0] not in ("gauss", "ten", "num", "var", "slice"))
@@ -275,6 +276,49 @@ class C12(Prop):
             stt.count("rank:" + ("deficient" if g_[4] < D else "full" if g_[4] == D else "over"))
         if nt:
             stt.mark_nontrivial(case_hash(case))
+
+    def integer_typed_point(self, case, r, stt):
+        """A point whose integral coordinates are passed as integer-typed arrays (as a caller writing `g(x=np.array([1, -2]),
+        y=0.5)` does) gives the value of the same point passed as floats."""
+        import numpy as np
+        from funsor.tensor import Tensor
+        from funsor.terms import Number
+
+        reals = [(k, d) for k, d in r.inputs.items() if d.dtype == "real"]
+        if not reals or len(reals) > 6:
+            return
+        salt = sum(ord(c) for c in self.describe(case)) % 4
+        for variant in range(2):
+            kw_i, kw_f = {}, {}
+            for j, (k, d) in enumerate(reals):
+                size = numel(d.shape)
+                ints_ = ((np.arange(size) + j + salt + variant) % 4 - 1).reshape(d.shape)
+                as_int = j == 0 if variant == 0 else (j + salt) % 2 == 0
+                if as_int:
+                    kw_i[k] = np.asarray(ints_, dtype=np.int64)
+                    kw_f[k] = np.asarray(ints_, dtype=float)
+                else:
+                    kw_i[k] = kw_f[k] = np.asarray(np.asarray(ints_, dtype=float) + 0.375)  # (0-d stays an array)
+            for k, d in r.inputs.items():
+                if d.dtype != "real":
+                    kw_i[k] = kw_f[k] = (salt + variant) % d.size
+            try:
+                vf_ = r(**kw_f)
+            except Exception as e:
+                stt.count("integer-typed-point:float-point-raised:" + innermost_funsor_frame(e))
+                return
+            try:
+                vi_ = r(**kw_i)
+            except Exception:
+                stt.count("integer-typed-point:raised")
+                continue
+            if not isinstance(vf_, (Tensor, Number)) or not isinstance(vi_, (Tensor, Number)) or vf_.inputs or vi_.inputs:
+                stt.count("integer-typed-point:lazy")
+                continue
+            a_, b_ = np.asarray(vi_.data, dtype=float), np.asarray(vf_.data, dtype=float)
+            if a_.shape != b_.shape or not np.allclose(a_, b_, rtol=1e-9, atol=1e-9, equal_nan=True):
+                raise Violation("integer-typed-point-wrong-value", f"value {a_.tolist()} at a point with integer-typed coordinates { {k: np.asarray(v).tolist() for k, v in kw_i.items()} } but {b_.tolist()} at the same point as floats: {self.describe(case)}")
+            stt.count("integer-typed-point:compared")
 
     def check_param(self, case, stt):
         from collections import OrderedDict
